@@ -6,16 +6,16 @@ CONSTANTS
   Scalars <- MCScalars
   FillPos = {3}
   FillW = {1}
-  SetDtypes = {"i2", "i8", "f2", "f4", "f8"}
+  SetDtypes = {"f8"}
   SliceArgs <- MCSliceArgs
-  MergeArgs = {2}
+  MergeArgs = {1, 2, 3, 4, 5, 6, 7}
   TakeArgs <- MCTakeArgs
   EdgeVals = {0}
-  MinFreqs = {2}
+  MinFreqs = {1, 2, 3, 4, 6, 100}
   MaxDepth = 3
-  MaxVal = 100000
+  MaxVal = 200
 CHECK_DEADLOCK FALSE
 INVARIANT WellFormed
-INVARIANT IntHoldsInts
+INVARIANT MergeLaws
 PROPERTY Independence
 PROPERTY RefusalIsNoOp
